@@ -164,6 +164,9 @@ def _elim_returns(stmts, ret):
         # value unused at the call site but its evaluation may matter
         out.append(ast.copy_location(ast.Expr(value=st.value), st))
       return out, True
+    if isinstance(st, ast.Raise):
+      out.append(st)
+      return out, True
     if not _contains_return(st):
       out.append(st)
       continue
